@@ -2,7 +2,7 @@
     Only statements closed by [exact]; see Proofs/ for the proofs and DESIGN.md 5/C02. *)
 From Coq Require Import List ZArith QArith Qcanon Bool.
 From Inovesa Require Import Base.FieldKit Base.Float32 Gen.Gen_Coeffs Model.Kick
-  Proofs.WeightsP Proofs.KickP Proofs.KickGridP.
+  Proofs.WeightsP Proofs.KickP Proofs.KickGridP Model.Rotation Proofs.RotationP.
 Import ListNotations.
 Local Open Scope Z_scope.
 
@@ -36,6 +36,27 @@ Theorem C02_whole_shift_exact :
     if ((0 <=? y + m) && (y + m <? n))%bool then r (y + m) else 0%Qc.
 Proof. exact whole_shift_exact. Qed.
 Print Assumptions C02_whole_shift_exact.
+
+(** RotationMap::genHInfo: the it*it tensor weights of a grid point sum to one, collapse to a
+    single unit weight at zero fractional parts, and reproduce every monomial x^k y^l, k,l < it *)
+Theorem C02_rot_weights_unity :
+  forall (K : Fld) (it : Z) (xf yf : K), valid_it it -> fsum (rot_weights it xf yf) = f1.
+Proof. exact rot_weights_unity. Qed.
+Print Assumptions C02_rot_weights_unity.
+
+Theorem C02_rot_weights_at_zero :
+  forall (K : Fld) (it : Z), valid_it it ->
+    rot_weights it (f0 : K) f0 = tensor (unit_at it) (unit_at it).
+Proof. exact rot_weights_at_zero. Qed.
+Print Assumptions C02_rot_weights_at_zero.
+
+Theorem C02_rot_poly_reproduction :
+  forall (K : Fld) (it : Z) (k l : nat) (xf yf X Y : K),
+    valid_it it -> Z.of_nat k < it -> Z.of_nat l < it ->
+    fdot (rot_weights it xf yf) (tensor (nodes K it X k) (nodes K it Y l)) =
+    (fpow (X + xf) k * fpow (Y + yf) l)%F.
+Proof. exact rot_poly_reproduction. Qed.
+Print Assumptions C02_rot_poly_reproduction.
 
 (** non-vacuity: a concrete shifted row *)
 Example C02_shift_example :
